@@ -152,7 +152,7 @@ def build_controlled():
             return False, "nvinstr -time handler.go failed:\n%s%s" % (so, se)
         # the head handler's message lock becomes a scheduling point (only HandleWrite is rewritten)
         outp2 = os.path.join(d, "handler2.go")
-        rc, so, se = run([os.path.join(BIN, "nvinstr"), outp, outp2, "HandleWrite"], timeout=120)
+        rc, so, se = run([os.path.join(BIN, "nvinstr"), outp, outp2, "HandleWrite,@messageLock"], timeout=120)
         if rc != 0:
             return False, "nvinstr handler.go (HandleWrite) failed:\n%s%s" % (so, se)
         mapping[os.path.join(REPO, "handler.go")] = outp2
